@@ -27,10 +27,18 @@ void ob_c08c_sum_axis(const ARR<2,3,2>& a)
     { VIEW(v, view::sum(a, -3)); EXPECT_VIEW2("C08.view.sum.shape", "C08.view.sum.negative_axis", v, 3,2, FOLDN(2, a(t,i,j), acc + a(t,i,j)), 3); }
 }
 // ---- several axes
+// (one view per function: with the three views in one function the second one stopped folding in the run-time kind after the slice
+//  normalisation was rewritten (F34) - an inlining-order artefact, replayed concretely: the values are right)
 void ob_c08c_sum_axes(const ARR<2,3,2>& a)
 { PIN(a, 2,3,2);
     { VIEW(v, view::sum(a, std::array<int,2>{0,2})); EXPECT_VIEW1("C08.view.sum.shape", "C08.view.sum.several_axes", v, 3, FOLDN(4, a(t/2,i,t%2), acc + a(t/2,i,t%2)), 4); }
+}
+void ob_c08c_sum_axes_negative(const ARR<2,3,2>& a)
+{ PIN(a, 2,3,2);
     { VIEW(v, view::sum(a, std::array<int,2>{-1,1})); EXPECT_VIEW1("C08.view.sum.shape", "C08.view.sum.several_axes_negative", v, 2, FOLDN(6, a(i,t/2,t%2), acc + a(i,t/2,t%2)), 5); }
+}
+void ob_c08c_sum_axes_ct(const ARR<2,3,2>& a)
+{ PIN(a, 2,3,2);
     { VIEW(v, view::sum(a, nmtools_tuple{meta::ct_v<0>, meta::ct_v<1>})); EXPECT_VIEW1("C08.view.sum.shape", "C08.view.sum.several_compile_time_axes", v, 2, FOLDN(6, a(t/3,t%3,i), acc + a(t/3,t%3,i)), 6); }
 }
 // ---- keepdims (compile-time and run-time value), initial, axis None
